@@ -131,11 +131,105 @@ def run(chk, n):
             chk.extra.setdefault("strata", {})[f"random_{kn}_watcher{w}"] = len(cases)
 
 
+def swap_execute(kn, w1, w2, rows, ops1, ops2):
+    kind1 = mgmt.KINDS[kn].with_(adapter=True, watcher=w1)
+    kind2 = kind1.with_(watcher=w2)
+    impl = mgmt.Impl(kind1, rows, True)
+    obs1 = [impl.step(op) for op in ops1]
+    old = impl.watcher
+    rows2 = [(0, r) for r in impl.policy(0)] + [(1, r) for r in impl.policy(1)] + [(2, r) for r in impl.policy(2)]
+    new = mgmt.WATCHERS[w2]()
+    impl.e.set_watcher(new)
+    impl.watcher = new
+    obs2, stale = [], None
+    for k, op in enumerate(ops2):
+        obs2.append(impl.step(op))
+        if old.calls and stale is None:
+            stale = (k, list(old.calls))
+    v = spec_check(kind1, rows, True, ops1, obs1, impl)
+    if v:
+        return ("segment-1", v[0][0], v[0][1])
+    if stale is not None:
+        return ("segment-2", stale[0], "a replaced watcher was still notified: %r" % (stale[1][:2],))
+    v = spec_check(kind2, rows2, True, ops2, obs2, impl)
+    if v:
+        return ("segment-2", v[0][0], v[0][1])
+    return None
+
+
+def replay_swap(chk, c):
+    import sys
+    def tup(o):
+        return tuple(tuple(x) if False else x for x in o)
+    bad = swap_execute(c["kind"], c["watcher_before"], c["watcher_after"], [(pt, r) for pt, r in c["initial_rows"]],
+                       [tuple(o) for o in c["ops_before"]], [tuple(o) for o in c["ops_after"]])
+    print("replay (watcher replaced half-way):", c["readable"], "->", bad)
+    if bad:
+        print(f"VIOLATION property={chk.prop} replay={chk.replay_file}")
+        sys.exit(1)
+    print("replay passes: the implementation satisfies the spec on this history")
+    sys.exit(0)
+
+
+def run_swap(chk, n):
+    """the watcher is REPLACED in the middle of a history (set_watcher with another recording watcher, possibly of
+    another kind): from then on the new watcher gets exactly what the property says for its kind and the replaced
+    one gets nothing.  Implementation only (the model's watcher kind is fixed per history); SPEC = spec_check on
+    either segment + silence of the replaced watcher."""
+    rng = chk.rng
+    reported = 0
+    for kn in ("acl", "rbac"):
+        for _ in range(n):
+            w1, w2 = rng.choice([1, 2, 3]), rng.choice([1, 2, 3])
+            kind1 = mgmt.KINDS[kn].with_(adapter=True, watcher=w1)
+            kind2 = kind1.with_(watcher=w2)
+            g = mgmt.Gen(rng, kind1, W)
+            rows = g.rows(rng.randint(0, 6))
+            ops1 = g.history(rng.randint(1, 6), final_probe=False)
+            ops2 = g.history(rng.randint(1, 8), final_probe=False)
+
+            def execute(ops1, ops2):
+                return swap_execute(kn, w1, w2, rows, ops1, ops2)
+            bad = execute(ops1, ops2)
+            chk.count(("swap", kn, w1, w2, repr([o for o in ops1 + ops2 if o[0] < 50])))
+            if bad:
+                if reported < 3:
+                    # shrink both segments
+                    a, b = list(ops1), list(ops2)
+                    changed = True
+                    while changed:
+                        changed = False
+                        for seg in (0, 1):
+                            cur = a if seg == 0 else b
+                            for i in range(len(cur) - 1, -1, -1):
+                                cand = cur[:i] + cur[i + 1:]
+                                try:
+                                    r = execute(cand, b) if seg == 0 else execute(a, cand)
+                                except Exception:  # noqa
+                                    r = None
+                                if r and r[2] == bad[2]:
+                                    if seg == 0:
+                                        a = cand
+                                    else:
+                                        b = cand
+                                    cur = cand
+                                    changed = True
+                    ops1, ops2 = a, b
+                reported += 1
+                chk.spec_fail(dict(stratum="watcher-replaced", kind=kn, watcher_before=w1, watcher_after=w2,
+                                   initial_rows=[[pt, r] for pt, r in rows],
+                                   readable=dict(before=[mgmt.pretty_op(o) for o in ops1], after=[mgmt.pretty_op(o) for o in ops2]),
+                                   ops_before=[list(o) for o in ops1], ops_after=[list(o) for o in ops2]),
+                              dict(where=bad[0], step=bad[1]), "see 'what'", bad[2])
+    chk.extra.setdefault("strata", {})["watcher_replaced_histories"] = 2 * n
+
+
 def main():
     chk = Check(PROP)
     chk.rule = ("management histories (valid, duplicate, rejected calls; single/batch/filtered/update/update_filtered; RBAC "
                 "wrappers; save_policy) x watcher kinds {update() only, WatcherEx, WatcherEx+WatcherUpdatable} x auto-notify "
-                "toggled inside 30% of the histories, adapter attached, on ACL / RBAC / domain / priority models; "
+                "toggled inside 30% of the histories, adapter attached, on ACL / RBAC / domain / priority models; plus histories "
+                "in which set_watcher replaces the watcher (any kind -> any kind) half-way; "
                 "non-trivial = at least one mutating call; distinct by (kind, watcher, mutating calls)")
     chk.assumptions = ["save_policy notifies whenever a watcher is set (the property's last clause; the code does not consult "
                        "auto-notify there, like the Go reference)",
@@ -144,11 +238,17 @@ def main():
     chk.trusted = ["hand-written models coq/theories/{Policy,RoleGraph,Mgmt}.v tied by the differential history correspondence"]
     chk.build(oracle_name="Mgmt")
     if chk.replay_file:
+        import json
+        c = (json.load(open(chk.replay_file)).get("case") or {})
+        if c.get("stratum") == "watcher-replaced":
+            return replay_swap(chk, c)
         return mgmt.replay_case(chk, spec_check)
     if chk.tier == "thorough":
         run(chk, 600)
+        run_swap(chk, 1500)
     else:
         run(chk, 60)
+        run_swap(chk, 150)
         if chk.broken() and not chk.spec_failures:
             run(chk, 300)
     chk.finish()
